@@ -52,6 +52,15 @@ CLAIMED = {
             "coinbase), brother count/sorting/permutation, and 0/1 exactly on total/partial success.",
             "partial: RLP decode/encode and block-field removal are modelled and differentially checked, "
             "mm_hash_invariant is not yet proved; keccak/SHA-256 uninterpreted"),
+    "C06": ("Lean theorems about the chain walk for paths of any length: the target is reported valid iff every "
+            "link on its path verifies against its certifier (root of trust for the topmost one); otherwise the "
+            "element named is the first one from the root down that does not verify and everything above it does; "
+            "the verdict depends on the target's own path only. linkValid is abstract; in the correspondence runs "
+            "it is a per-case table computed with an independent implementation (python-ecdsa + explicit point "
+            "addition for the HMAC tweak) while the code under test uses the secp256k1 binding; compared with "
+            "HSMCertificate.validate_and_get_values on real-key certificates and all single-point corruptions.",
+            "partial: ECDSA/HMAC/SHA-256 are uninterpreted (unforgeability is not a theorem); key extraction and "
+            "tweak wiring are checked by the independent oracle, not proved"),
     "C09": ("Lean theorems: the version relation characterised for all naturals (same major, (minor, patch) "
             "lexicographically not newer) and equal to the property's relation; constants 5.4.1 / two retries as "
             "specified. The bring-up model (initialize_device, _handle_bootloader, PIN object, three platforms, "
@@ -86,6 +95,13 @@ CLAIMED = {
             "uiHeartbeat to end in signer mode or report -905.",
             "partial: reply assembly is tied by correspondence + oracle; the simulated device stands for a genuine "
             "one; known finding F-13a"),
+    "C16": ("Lean theorems: the sanity walk of _parse (the unbounded `while True` with a visited list) never needs "
+            "more than |elements|+1 steps (pigeonhole on distinct names) — the Python loop terminates on every "
+            "input; an accepted target has a finite, duplicate-free chain ending at an element signed by the root, "
+            "found by the validation walk with the same fuel. The parse model (v1 and v2 factories, dict-key "
+            "semantics) is tied to from_jsonfile / validate_and_get_values / save+load by correspondence on "
+            "mutated certificate-shaped documents, run under a wall-clock alarm.",
+            "base64 acceptance of X.509 messages is an input of the model; signature checks stubbed by a link table"),
     "C14": ("Lean theorems about the model of get_unsigned_tx (python-bitcoinlib's codec re-modelled): fields "
             "preserved, script shape; tied to the code by differential correspondence and the oracle Spec.c14 "
             "evaluated on the implementation's output.",
